@@ -127,7 +127,7 @@ Definition points_records (pl : list (list point)) : list record := points_recor
 Definition header_record (h : handle) : record :=
   RHeader (hd_method h) (hd_maxret h) (hd_xff h) (layout_of_arcs (hd_arcs h)).
 
-Inductive status := StOk | StDiff | StErr | StPanic.
+Inductive status := StOk | StDiff | StNotExist | StErr | StPanic.
 
 (** the world seen by a command: an existing file is what a fresh Open reads *)
 Definition opened (f : option handle) : option handle :=
@@ -137,11 +137,12 @@ Definition opened (f : option handle) : option handle :=
   end.
 
 (** reading one file: [readWhisperFileLocal] *)
-Inductive read_res := RdErr | RdPanic | RdOk (h : handle) (l : list series).
+Inductive read_res := RdNotExist | RdErr | RdPanic | RdOk (h : handle) (l : list series).
 Definition read_file (f : option handle) (aid from until now : Z) : read_res :=
-  match opened f with
-  | None => RdErr
-  | Some h => match fetch_ts_list (hd_arcs h) aid from until now with
+  match f, opened f with
+  | None, _ => RdNotExist                       (* the path does not exist *)
+  | Some _, None => RdErr                       (* it exists but cannot be opened as a whisper file *)
+  | Some _, Some h => match fetch_ts_list (hd_arcs h) aid from until now with
               | TslOk l => RdOk h l
               | TslPanic => RdPanic
               | TslErr => RdErr
@@ -188,6 +189,9 @@ Record cmd_result := mkResult {
 (** [openOrCreateCopyDestFile] and the rest of [copyOneFile] / [sumCopyItem] once the outcome of
     reading the source is known (source and destination are handled concurrently in the code,
     so the destination is opened or created even when the source cannot be read) *)
+Definition src_failure (src : read_res) : status :=
+  match src with RdPanic => StPanic | RdNotExist => StNotExist | _ => StErr end.
+
 Definition copy_core (F : fops) (src : read_res) (dest : option handle)
   (o : copy_opts) (until now : Z) : cmd_result :=
   match create (co_method o) (co_xff o) (co_layout o) with
@@ -216,6 +220,7 @@ Definition copy_core (F : fops) (src : read_res) (dest : option handle)
             | (_, OutPanic) => mkResult StPanic dest_opened []
             | (_, OutErr) => mkResult StErr dest_opened []
             end
+      | RdNotExist, TslOk _ => mkResult StNotExist dest_opened []
       | _, _ => mkResult StErr dest_opened []
       end
     end
@@ -251,22 +256,21 @@ Definition diff_core (fsub : Z -> Z -> Z) (check_ranges : bool) (sh : handle) (s
 (** combining the two concurrent reads of diff / sum-diff: a missing file on either side is a
     reported difference (the source is reported when both are missing or one of them fails
     otherwise: errgroup keeps the first error, and a not-exist error is classified first) *)
-Definition diff_two (fsub : Z -> Z -> Z) (check_ranges : bool) (src_missing dest_missing : bool)
-  (s d : read_res) : status * list record :=
+Definition diff_two (fsub : Z -> Z -> Z) (check_ranges : bool) (s d : read_res) : status * list record :=
   match s, d with
   | RdPanic, _ | _, RdPanic => (StPanic, [])
   | RdOk sh sl, RdOk dh dl => diff_core fsub check_ranges sh sl dh dl
-  | _, _ => if src_missing || dest_missing
-            then (StDiff, [RErrMissing (if src_missing && dest_missing then 2 else if src_missing then 0 else 1)])
-            else (StErr, [])
+  | RdNotExist, RdNotExist => (StDiff, [RErrMissing 2])
+  | RdNotExist, _ => (StDiff, [RErrMissing 0])
+  | _, RdNotExist => (StDiff, [RErrMissing 1])
+  | _, _ => (StErr, [])
   end.
 
 (** [DiffCommand.diffOneFile] *)
 Definition diff_one (fsub : Z -> Z -> Z) (src dest : option handle) (aid from until0 now : Z)
   : status * list record :=
   let until := resolve_until until0 now in
-  diff_two fsub true (match src with None => true | _ => false end) (match dest with None => true | _ => false end)
-    (read_file src aid from until now) (read_file dest aid from until now).
+  diff_two fsub true (read_file src aid from until now) (read_file dest aid from until now).
 
 (** ** sum *)
 (** [sumTimeSeriesListForArchive]: values of the first file, then [Value.Add] of each further
@@ -290,7 +294,7 @@ Definition read_ok (r : read_res) : option (handle * list series) :=
 (** [sumWhisperFileLocal] on the matched files, in glob order ([files = []]: nothing matched) *)
 Definition sum_files (F : fops) (files : list (option handle)) (aid from until now : Z) : read_res :=
   match files with
-  | [] => RdErr                                     (* reported as not existing *)
+  | [] => RdNotExist                                (* nothing matched: reported as not existing *)
   | _ =>
     let reads := map (fun f => read_file f aid from until now) files in
     if existsb (fun r => match r with RdPanic => true | _ => false end) reads then RdPanic
@@ -310,8 +314,7 @@ Definition sum_item (F : fops) (files : list (option handle)) (aid from until0 n
   : status * list record :=
   match sum_files F files aid from (resolve_until until0 now) now with
   | RdOk h l => (StOk, (if show_header then [header_record h] else []) ++ points_records (map series_points l))
-  | RdPanic => (StPanic, [])
-  | RdErr => (StErr, [])
+  | r => (src_failure r, [])
   end.
 
 (** [SumCopyCommand.sumCopyItem]: copy with the sum as the source, NaN included *)
@@ -325,9 +328,7 @@ Definition sum_copy_item (F : fops) (files : list (option handle)) (dest : optio
 Definition sum_diff_item (F : fops) (fsub : Z -> Z -> Z) (files : list (option handle)) (dest : option handle)
   (aid from until0 now : Z) : status * list record :=
   let until := resolve_until until0 now in
-  diff_two fsub false (match files with [] => true | _ => existsb (fun f => match f with None => true | _ => false end) files end)
-    (match dest with None => true | _ => false end)
-    (sum_files F files aid from until now) (read_file dest aid from until now).
+  diff_two fsub false (sum_files F files aid from until now) (read_file dest aid from until now).
 
 (** ** loops over the matched files / items: diff-like commands go on after a difference and
     stop at the first error; copy-like commands stop at the first failure *)
@@ -351,8 +352,7 @@ Fixpoint run_diffs (jobs : list (status * list record)) : status * list (list re
 Definition view_cmd (f : option handle) (aid from until0 now : Z) (show_header : bool) : status * list record :=
   match read_file f aid from (resolve_until until0 now) now with
   | RdOk h l => (StOk, (if show_header then [header_record h] else []) ++ points_records (map series_points l))
-  | RdPanic => (StPanic, [])
-  | RdErr => (StErr, [])
+  | r => (src_failure r, [])
   end.
 
 (** [filterPointsByTimeRange] *)
@@ -368,9 +368,10 @@ Fixpoint raw_lists (arcs : list arc) (i aid : Z) : list (list point) :=
 
 Definition view_raw_cmd (f : option handle) (aid from until0 now : Z) (show_header sort : bool)
   : status * list record :=
-  match opened f with
-  | None => (StErr, [])
-  | Some h =>
+  match f, opened f with
+  | None, _ => (StNotExist, [])
+  | Some _, None => (StErr, [])
+  | Some _, Some h =>
     if (aid =? ArchiveIDAll) || ((0 <=? aid) && (aid <? zlen (hd_arcs h))) then
       let until := resolve_until until0 now in
       let pl := map (fun al => let ps := filter_raw (a_step (fst al)) from until (snd al) in
